@@ -36,7 +36,8 @@ vars == <<cfg, pc, stack, retv, ctxv, obs>>
 
 (* ------------------------------ normative ------------------------------ *)
 K(c) == Len(c.fields)
-W(f) == IF f.tail = <<>> THEN 1 ELSE f.tail[1]
+\* number of scalars per sequence element (trailing shape of up to two dims)
+W(f) == IF f.tail = <<>> THEN 1 ELSE IF Len(f.tail) = 1 THEN f.tail[1] ELSE f.tail[1] * f.tail[2]
 Max(S) == CHOOSE x \in S : \A y \in S : y <= x
 MaxLenOf(c, k) == Max({c.len[b][k] : b \in 1..c.B})
 HasCtx(c) == c.style # "plain"
